@@ -53,22 +53,66 @@ func c23OnlyWBLSamplesOfRecreatedSeriesMissing(x *dbx, dir string, withSnap, noS
 		return false
 	}
 	defer sr.Close()
-	rd := wlog.NewReader(sr)
 	dec := record.NewDecoder(labels.NewSymbolTable(), nil)
-	for rd.Next() {
-		if dec.Type(rd.Record()) != record.Series {
-			continue
-		}
-		ss, err := dec.Series(rd.Record(), nil)
-		if err != nil {
-			return false
-		}
-		for _, s := range ss {
-			k := seriesKeyOf(s.Labels)
-			if recs[k] == nil {
-				recs[k] = map[uint64]bool{}
+	scan := func(rd *wlog.Reader) bool {
+		for rd.Next() {
+			if dec.Type(rd.Record()) != record.Series {
+				continue
 			}
-			recs[k][uint64(s.Ref)] = true
+			ss, err := dec.Series(rd.Record(), nil)
+			if err != nil {
+				return false
+			}
+			for _, s := range ss {
+				k := seriesKeyOf(s.Labels)
+				if recs[k] == nil {
+					recs[k] = map[uint64]bool{}
+				}
+				recs[k][uint64(s.Ref)] = true
+			}
+		}
+		return true
+	}
+	if !scan(wlog.NewReader(sr)) {
+		return false
+	}
+	// series records that a checkpoint has taken over from the segments it replaced
+	if cpDir, _, err := wlog.LastCheckpoint(filepath.Join(dir, "wal")); err == nil {
+		if cf, cl, err := wlog.Segments(cpDir); err == nil {
+			if cr, err := wlog.NewSegmentsRangeReader(wlog.SegmentRange{Dir: cpDir, First: cf, Last: cl}); err == nil {
+				ok := scan(wlog.NewReader(cr))
+				cr.Close()
+				if !ok {
+					return false
+				}
+			}
+		}
+	}
+	// timestamps of the samples held in the WBL
+	wblT := map[int64]bool{}
+	if bf, bl, err := wlog.Segments(filepath.Join(dir, wlog.WblDirName)); err == nil {
+		if br, err := wlog.NewSegmentsRangeReader(wlog.SegmentRange{Dir: filepath.Join(dir, wlog.WblDirName), First: bf, Last: bl}); err == nil {
+			brd := wlog.NewReader(br)
+			for brd.Next() {
+				switch dec.Type(brd.Record()) {
+				case record.Samples:
+					ss, _ := dec.Samples(brd.Record(), nil)
+					for _, s := range ss {
+						wblT[s.T] = true
+					}
+				case record.HistogramSamples, record.CustomBucketsHistogramSamples:
+					ss, _ := dec.HistogramSamples(brd.Record(), nil)
+					for _, s := range ss {
+						wblT[s.T] = true
+					}
+				case record.FloatHistogramSamples, record.CustomBucketsFloatHistogramSamples:
+					ss, _ := dec.FloatHistogramSamples(brd.Record(), nil)
+					for _, s := range ss {
+						wblT[s.T] = true
+					}
+				}
+			}
+			br.Close()
 		}
 	}
 	missing := 0
@@ -84,8 +128,7 @@ func c23OnlyWBLSamplesOfRecreatedSeriesMissing(x *dbx, dir string, withSnap, noS
 				}
 				continue
 			}
-			ms := x.m.series[sk]
-			if ms == nil || !ms.ooo[smp.t] || len(recs[sk]) < 2 {
+			if !wblT[smp.t] || len(recs[sk]) < 2 {
 				return false
 			}
 			missing++
@@ -166,6 +209,24 @@ func c23Check(x *dbx) *vx.Fail {
 		return vx.Failf("snapshot-restart-differs-from-wal-restart/"+op, "after %v:\n with snapshot   : %s\n without snapshot: %s", x.hist, withSnap, noSnap)
 	}
 	if f := x.compareRange(gotSnap, math.MinInt64, math.MaxInt64, false, "snapshot-restart"); f != nil {
+		// Known-finding class (both kinds of restart agree, so it is not a snapshot matter): a sample
+		// was deleted while it sat in a block, CleanTombstones then dropped the emptied block, and the
+		// WAL still holds the sample; the head tombstone of the delete only covers the head's own time
+		// range, so the next restart replays the sample and nothing hides it any more.
+		if strings.HasPrefix(f.Signature, "extra-sample") {
+			delAt, cleanAt := -1, -1
+			for i, op := range x.hist {
+				if strings.HasPrefix(op, "del/") && delAt < 0 {
+					delAt = i
+				}
+				if op == "clean" && delAt >= 0 {
+					cleanAt = i
+				}
+			}
+			if delAt >= 0 && cleanAt > delAt {
+				return vx.Failf("deleted-sample-replayed-from-wal-after-clean-tombstones-dropped-its-block", "after %v: %s", x.hist, f.Message)
+			}
+		}
 		return f
 	}
 	if x.light {
